@@ -8,7 +8,7 @@ import subprocess
 import sys
 import tempfile
 
-from checks.c06_replay import _vals, _build
+from checks.c06_replay import _vals, _build, perturb, lowp_problem
 from checks.c07_replay import _orig_vals
 
 
@@ -29,7 +29,10 @@ def worker(rank, world, cfgfile, initfile, outfile):
     if hybrid:
         mesh = init_device_mesh("cpu", (hybrid["replicate"], nshard), mesh_dim_names=("replicate", "shard"))
         plc = [Replicate(), Shard(0)]
-        dc = HybridShardShampooConfig(device_mesh=mesh, num_trainers_per_group=hybrid.get("group", -1), communicate_params=hybrid.get("communicate_params", False))
+        from distributed_shampoo.shampoo_types import CommunicationDType
+
+        dc = HybridShardShampooConfig(device_mesh=mesh, num_trainers_per_group=hybrid.get("group", -1), communicate_params=hybrid.get("communicate_params", False),
+                                      communication_dtype=getattr(CommunicationDType, hybrid.get("comm", "FP32")))
     else:
         mesh = init_device_mesh("cpu", (nshard,), mesh_dim_names=("shard",))
         plc = [Shard(0)]
@@ -58,6 +61,9 @@ def replay(record):
     vals = _vals(record)
     origs = [tuple(s) for s in cfg["orig_shapes"]]
     hybrid = cfg.get("hybrid")
+    low = (hybrid or {}).get("comm", "FP32") in ("BF16", "FP16")
+    if low:
+        vals = perturb(vals)
     nshard = cfg["shards"]
     world = nshard * (hybrid["replicate"] if hybrid else 1)
     root = os.path.dirname(os.path.dirname(os.path.abspath(__file__)))
@@ -99,6 +105,13 @@ def replay(record):
                 got = json.load(open(os.path.join(d, f"out{r}.json")))
                 for i, p in zip(idx, sp):
                     g = torch.tensor(got[i], dtype=torch.float64).reshape(p.shape)
+                    if low:
+                        if got[i] != json.load(open(os.path.join(d, f"out{srank}.json")))[i]:
+                            problems.append(f"rank {r}: local shard of parameter {i} differs from replica 0 (replicas not identical)")
+                        pr = lowp_problem(g, p.detach(), full[i][rows[i][0]:rows[i][1]], hybrid["comm"], hybrid.get("communicate_params", False))
+                        if pr:
+                            problems.append(f"rank {r}: local shard of parameter {i}: {pr}")
+                        continue
                     if not torch.allclose(g, p.detach(), rtol=1e-6, atol=1e-9):
                         problems.append(f"rank {r}: local shard of parameter {i} differs from the serial optimizer by {(g - p.detach()).abs().max().item():.3e}")
     import shutil
